@@ -110,6 +110,10 @@ type Input struct {
 	Before []Input `json:"before,omitempty"`
 	// what happens on the same blockrelay service AFTER the operations of the mode (auction / query only)
 	Late *LateIn `json:"late,omitempty"`
+	// how long after the operations of this auction the NEXT auction on the instance starts (ms); 0 = an
+	// hour.  With a short pause two auctions fall into the same second of chain time, so that a relay
+	// can offer the very same bid message (same header timestamp) in both.
+	Settle int64 `json:"settle,omitempty"`
 }
 
 // LateIn: the beacon node asks (again) for the bid of the auction's slot / parent / proposer after the
@@ -471,6 +475,10 @@ type Obs struct {
 	LateAt     []int64   `json:"late_at,omitempty"`
 	LateServed []*uint64 `json:"late_served,omitempty"`
 	LateReqs   []call    `json:"late_requests,omitempty"`
+	// diagnostics of the INPUT as it was run (never compared): scripted bids of this auction whose message
+	// (hash tree root) another scripted bid of this auction has too / a bid of an earlier auction on the instance had
+	DupWithin int `json:"dup_messages_within,omitempty"`
+	DupAcross int `json:"dup_messages_across,omitempty"`
 }
 
 const auctionSlot = 12345
@@ -604,14 +612,17 @@ func runBubble(t *testing.T, rounds []Input, obss []Obs, logs []*callLog) {
 		ec := &execConfig{}
 		svc := standardblockrelay.NewForVerifC09(level, mockaccountmanager.NewAccountsProvider(), ec, strat, builderConfigs)
 
+		seenMsg := map[phase0.Root]bool{}
 		for j := range rounds {
-			runRound(t, root, rounds[j], &obss[j], logs[j], chainTime, domain, strat, svc, ec, builderConfigs)
+			runRound(t, root, rounds[j], &obss[j], logs[j], chainTime, domain, strat, svc, ec, builderConfigs, seenMsg)
 		}
 	})
 }
 
 func runRound(t *testing.T, root context.Context, in Input, obs *Obs, lg *callLog, chainTime *mocks.ChainTime, domain phase0.Domain,
-	strat builderbid.Provider, svc *standardblockrelay.Service, ec *execConfig, builderConfigs map[phase0.BLSPubKey]*blockrelay.BuilderConfig) {
+	strat builderbid.Provider, svc *standardblockrelay.Service, ec *execConfig, builderConfigs map[phase0.BLSPubKey]*blockrelay.BuilderConfig,
+	seenMsg map[phase0.Root]bool) {
+	roundMsg := map[phase0.Root]int{}
 	ctx, cancel := context.WithCancel(root)
 	defer cancel()
 	start := time.Now()
@@ -636,6 +647,9 @@ func runRound(t *testing.T, root context.Context, in Input, obs *Obs, lg *callLo
 			if s.kind == "bid" {
 				s.bid = makeBid(r.Script[k].Bid, chainTime.StartOfSlot(slot).Unix(), domain)
 				bidUID[s.bid] = uid(i, k)
+				if mr, err := s.bid.MessageHashTreeRoot(); err == nil {
+					roundMsg[mr]++
+				}
 			}
 			m.script = append(m.script, s)
 		}
@@ -669,6 +683,17 @@ func runRound(t *testing.T, root context.Context, in Input, obs *Obs, lg *callLo
 		})
 	}
 	ec.relays = relayConfigs
+	for mr, n := range roundMsg {
+		if n > 1 {
+			obs.DupWithin += n
+		}
+		if seenMsg[mr] {
+			obs.DupAcross += n
+		}
+	}
+	for mr := range roundMsg {
+		seenMsg[mr] = true
+	}
 
 	parentID := in.Parent
 	if parentID == 0 {
@@ -781,7 +806,11 @@ func runRound(t *testing.T, root context.Context, in Input, obs *Obs, lg *callLo
 	cancel() // releases the mocks that never answer
 	lateCancel()
 	// let every relay goroutine run to its end (fake time stops when the bubble's function returns)
-	time.Sleep(time.Hour)
+	if in.Settle > 0 {
+		time.Sleep(time.Duration(in.Settle) * time.Millisecond)
+	} else {
+		time.Sleep(time.Hour)
+	}
 	synctest.Wait()
 
 	if res != nil {
@@ -1131,7 +1160,10 @@ func scaled(v int64, exp int) string {
 
 func pick[T any](r *Rand, xs ...T) T { return xs[r.Intn(len(xs))] }
 
-func gen(r *Rand, tier string) Input {
+func gen(r *Rand, tier string) Input { return genOpt(r, tier, false) }
+
+// genOpt: short = an auction of 200-270 ms (several of them fit into one second of chain time).
+func genOpt(r *Rand, tier string, short bool) Input {
 	in := Input{Strategy: "best", Mode: "strategy"}
 	if r.Chance(45, 100) {
 		in.Strategy = "deadline"
@@ -1205,13 +1237,19 @@ func gen(r *Rand, tier string) Input {
 	}
 	// cut-off in units of 16 ms
 	m := int64(r.Range(12, 90))
+	if short {
+		m = int64(r.Range(12, 16))
+	}
 	if in.Strategy == "best" {
 		in.Timeout = 16*m + 15
 	} else {
-		if r.Chance(4, 100) {
+		if r.Chance(4, 100) && !short {
 			m = int64(-r.Range(1, 20)) // the deadline has already passed
 		}
 		in.Deadline = int64(r.Range(1, 1500))
+		if short {
+			in.Deadline = int64(r.Range(100, 200))
+		}
 		in.SlotStartIn = 16*m + 15 - in.Deadline
 		in.Gap = 16 * int64(r.Range(1, 8))
 	}
@@ -1465,6 +1503,9 @@ func gen(r *Rand, tier string) Input {
 			rel.Script[k].Bid = b
 		}
 	}
+	if r.Chance(22, 100) {
+		dupMessage(r, &in)
+	}
 	genLate(r, &in)
 	return in
 }
@@ -1508,14 +1549,17 @@ func spoilAuction(r *Rand, in *Input) {
 // node asks for the bid of the auction's key once to three times, at once or (much) later, and by then
 // most relays have a bid worth more than anything offered during the auction; in two cases out of five
 // the auction itself is made to end without a winner.
-func genLate(r *Rand, in *Input) {
+func genLate(r *Rand, in *Input) { genLateOpt(r, in, true) }
+
+// genLateOpt: spoil = the auction itself may be made to end without a winner.
+func genLateOpt(r *Rand, in *Input, spoil bool) {
 	in.Late = nil
 	if in.Mode == "strategy" || !r.Chance(75, 100) {
 		return
 	}
 	lt := &LateIn{Queries: pick(r, 1, 1, 2, 3), Wait: pick(r, int64(0), 0, 1, 40, 500, 4000, 12000, 400000),
 		Between: pick(r, int64(0), 1, 250, 12000)}
-	if len(in.Relays) > 0 && r.Chance(40, 100) {
+	if len(in.Relays) > 0 && spoil && r.Chance(40, 100) {
 		spoilAuction(r, in)
 		in.Tags = append(in.Tags, "late:auction-made-to-end-without-winner")
 	}
@@ -1694,6 +1738,12 @@ func TestC09(t *testing.T) {
 	}
 	rng := NewRand(Seed())
 	for i := 0; i < n; {
+		if i%16 == 3 && i+3 <= n { // auctions within one second of chain time: the same bid message again
+			rounds := genDupSeq(rng.Fork(), tier)
+			jobs = append(jobs, job{rounds: rounds})
+			i += len(rounds)
+			continue
+		}
 		if i%8 == 7 && i+4 <= n { // about one case in four is an auction of a sequence
 			rounds := genSeq(rng.Fork(), tier)
 			jobs = append(jobs, job{rounds: rounds})
@@ -1788,6 +1838,12 @@ func emit(col *Collector, in Input, obs Obs, round int) {
 		if len(obs.LateReqs) > 0 {
 			col.Count("late:relays-asked")
 		}
+	}
+	if obs.DupWithin > 0 {
+		col.Count("dup-message:within-the-auction")
+	}
+	if obs.DupAcross > 0 {
+		col.Count("dup-message:of-an-earlier-auction-on-the-instance")
 	}
 	col.Count(fmt.Sprintf("relays:%d", len(in.Relays)))
 	col.Count("strategy:" + in.Strategy)
